@@ -12,7 +12,8 @@ RULE = ("all label layouts of length 2..L (class-balanced: <=3 classes, every cl
         "world sizes 1..3 x all ranks; random draws: real seeds {0,1,2} x epochs {0,1}, and for pools <= 4 every answer of every "
         "permutation / multinomial draw (TorchProxy, capped per configuration); oracles: exact per-class counts over all ranks, "
         "even reuse within a class, strict labeled/unlabeled alternation, duplicate-free aligned pool windows, equal rank lengths "
-        "and differently seeded rank streams, no index twice (weighted), valid indices, documented epoch length; "
+        "and differently seeded rank streams, class labels stored as list / numpy / torch integer dtypes on a 140-sample layout "
+        "(class-balanced), no index twice (weighted), valid indices, documented epoch length; "
         "distinct = distinct (configuration, epoch composition) observations")
 
 
@@ -64,13 +65,16 @@ def check_balanced_streams(lay, spc, W, shuffle, streams, lens, p, case):
     p.observe(("cb", tuple(lay), spc, W, tuple(sorted(allidx))))
 
 
-def balanced(lay, tier, p):
+CONTAINERS = ("numpy:uint8", "numpy:int8", "numpy:int16", "numpy:int32", "torch:uint8", "torch:int8", "torch:int16", "torch:int32", "torch:int64")
+
+
+def balanced(lay, tier, p, container="list"):
     from kappadata.samplers.class_balanced_sampler import ClassBalancedSampler
-    ds = DS(lay)
-    for spc in (None, 1, 2, 3, 4, 5, 7, 8, 11):
+    ds = DS(lay, container)
+    for spc in ((None, 1, 2, 3, 4, 5, 7, 8, 11) if container == "list" else (None, 3)):
         for W in (1, 2, 3):
             for shuffle in (True, False):
-                case = dict(sampler="class_balanced", classes=list(lay), spc=spc, W=W, shuffle=shuffle)
+                case = dict(sampler="class_balanced", classes=list(lay), spc=spc, W=W, shuffle=shuffle, container=container)
                 # several whole passes over a class plus a partial one: more draws, so more real seeds
                 many_passes = (spc or max(lay.count(c) for c in set(lay))) >= 2 * min(lay.count(c) for c in set(lay)) + 1
                 seeds = ((0, 1, 2, 3, 4, 5) if many_passes else (0, 1, 2)) if shuffle else (0,)
@@ -88,7 +92,7 @@ def balanced(lay, tier, p):
                         check_balanced_streams(lay, spc, W, shuffle, streams, lens, p, dict(case, seed=seed, epoch=epoch))
                         check_balanced_streams(lay, spc, W, shuffle, second, lens, p, dict(case, seed=seed, epoch=epoch, second_iteration=True))
                 # every permutation answer when all pools are small
-                if shuffle and max(lay.count(c) for c in set(lay)) <= 3 and (spc or 0) <= 2 and len(lay) <= 4:
+                if container == "list" and shuffle and max(lay.count(c) for c in set(lay)) <= 3 and (spc or 0) <= 2 and len(lay) <= 4:
                     def body(ch):
                         s = ClassBalancedSampler(ds, shuffle=True, samples_per_class=spc, seed=0, rank=0, world_size=1)
                         return with_proxy("kappadata.samplers.class_balanced_sampler", ch, lambda: list(s))
@@ -272,12 +276,19 @@ def task(args):
     if what == "cb":
         for lay in payload:
             guarded(balanced, tuple(lay), "class_balanced")
+    elif what == "cb_container":
+        lay, container = payload
+        try:
+            balanced(tuple(lay), tier, p, container)
+        except Exception as e:
+            p.violation(f"C13:class_balanced:exception:{type(e).__name__}|container={container.split(':')[1]}",
+                        dict(sampler="class_balanced", classes=list(lay), container=container), f"labels stored as {container}: {e!r}")
     elif what == "semi":
         for lay in payload:
             guarded(semi, tuple(lay), "semi")
     else:
         guarded(weighted, payload, "weighted")
-    p.sample(dict(sampler=what, example=payload[0] if what != "w" else payload))
+    p.sample(dict(sampler=what, example=(payload[0] if what != "w" else payload) if what != "cb_container" else payload[1]))
     return p
 
 
@@ -294,6 +305,10 @@ def run(run):
            tuple([0, -1] * 12)]
     tasks += [("semi", [b], run.tier) for b in big]
     tasks += [("w", n, run.tier) for n in range(1, L + 2)]
+    # labels stored compactly (numpy / torch integer dtypes) on a dataset large enough for index arithmetic in the label
+    # dtype to overflow (3 classes x 140 samples > 255; > 127)
+    big_cb = tuple((i * 7 + i // 5) % 3 if i % 11 else 2 for i in range(140))
+    tasks += [("cb_container", (lay, c), run.tier) for c in CONTAINERS for lay in (big_cb, (0, 1, 1, 2, 0, 1))]
     run.pmap(task, tasks)
     run.exhaustive = run.counters.get("proxy_enumeration_capped", 0) == 0
     run.extra.update(bounds=dict(layout_len=f"2..{L}", class_balanced_layouts=len(cb), semi_layouts=len(se), weights="{0,1,3}^n for n<=4",
@@ -309,7 +324,7 @@ def replay(case):
     p = Partial()
     s = case.get("sampler")
     if s == "class_balanced":
-        balanced(tuple(case["classes"]), "quick", p)
+        balanced(tuple(case["classes"]), "quick", p, case.get("container", "list"))
     elif s == "semi":
         semi(tuple(case["classes"]), "quick", p)
     else:
